@@ -7,7 +7,7 @@ from concurrent.futures import ThreadPoolExecutor
 VERIF = os.path.dirname(os.path.dirname(os.path.abspath(__file__)))
 REPO = os.environ.get('TULZ_REPO', '/repo')
 FIXPROPS = {'0001': ['C01', 'C02', 'C03'], '0002': ['C09'], '0003': ['C09'], '0004': ['C14'], '0005': ['C19'], '0006': ['C20'], '0007': ['C15', 'C20'], '0008': ['C08', 'C15'], '0009': ['C10'], '0010': ['C06']}
-ACCEPT_INCONCLUSIVE = {'seed:C03b'}      # the fast path consults a new boolean field: outside the table vocabulary by design
+ACCEPT_INCONCLUSIVE = set(json.load(open(os.path.join(VERIF, 'selftest', 'accepted_inconclusive.json'))))      # re-designs the rules do not follow: 'not decided' is the honest verdict (reasons in that file)
 
 
 def items_for(prop):
@@ -24,6 +24,9 @@ def items_for(prop):
         if prop in FIXPROPS.get(n, []): out.append(('revert:D' + n[2:], f, True, 'violation'))
     for f in sorted(glob.glob(os.path.join(VERIF, 'selftest', 'benign', '*.diff'))):
         out.append(('benign:' + os.path.basename(f)[:-5], f, False, 'silent'))
+    # behaviour-preserving refactorings written for this property: never a VIOLATION ('not decided' is allowed for re-designs)
+    for f in sorted(glob.glob(os.path.join(VERIF, 'selftest', 'refactor', prop + 'r*.diff'))):
+        out.append(('refactor:' + os.path.basename(f)[:-5], f, False, 'no-violation'))
     return out
 
 
@@ -45,7 +48,7 @@ def _run(prop, item):
 
 def selftest(prop, rep):
     items = items_for(prop)
-    rep.rule('SELF', 'checker self-test (thorough tier): every corpus change tagged with this property is reported, every benign variant leaves the check silent')
+    rep.rule('SELF', 'checker self-test (thorough tier): every corpus change tagged with this property is reported, every benign variant leaves the check silent, no behaviour-preserving refactoring raises a violation')
     if not items: return
     with ThreadPoolExecutor(max_workers=min(12, os.cpu_count() or 4)) as ex:
         results = list(ex.map(lambda it: _run(prop, it), items))
@@ -54,7 +57,7 @@ def selftest(prop, rep):
         summary.append(dict(item=name, expect=expect, verdict=verdict, first=first))
         if verdict == 'not-applicable':
             rep.note(f'self-test item {name} skipped: {first}'); continue
-        ok = verdict == expect or (name in ACCEPT_INCONCLUSIVE and verdict == 'inconclusive')
+        ok = verdict == expect or (name in ACCEPT_INCONCLUSIVE and verdict == 'inconclusive') or (expect == 'no-violation' and verdict in ('silent', 'inconclusive'))
         if ok: rep.ok('SELF', f'{name}: {verdict}' + (f' — {first[:120]}' if expect == 'violation' else ''), 'selftest', nontrivial=True)
         else: rep.anchor_missing(f'selftest:{name}', f'expected {expect}, the check says {verdict}: {first[:160]}')
     rep.counts['corpus_items'] = len(results)
